@@ -208,6 +208,63 @@ def kill_and_poll(k: int, j: int) -> bool:
     return ok and a == FULL and b == FULL and w.resets == r0 + 2 and w.get_skipped() == FULL_SKIPPED
 
 
+def _run_ops(ops):
+    """Apply a sequence of operations to one object and to a 10-line reference state machine; compare every observable."""
+    w = K(ROOT, '*.txt', None, FLAGS)
+    aborted = False
+    it = None            # live imatch generator
+    pos = 0              # how many results the live generator has produced
+    for op in ops:
+        if op == 0:                      # match()
+            got = w.match()
+            if got != ([] if aborted else FULL):
+                return False
+            if not aborted and w.get_skipped() != FULL_SKIPPED:
+                return False
+            it = None
+        elif op == 1:                    # one step of imatch (a fresh generator if none is live)
+            if it is None:
+                it = w.imatch()
+                pos = 0
+            try:
+                val = next(it)
+                if aborted or pos >= len(FULL) or val != FULL[pos]:
+                    return False
+                pos += 1
+            except StopIteration:
+                if not (aborted or pos == len(FULL)):
+                    return False
+                it = None
+        elif op == 2:                    # kill()
+            w.kill()
+            aborted = True
+        elif op == 3:                    # reset()
+            w.reset()
+            aborted = False
+        else:                            # is_aborted()
+            if w.is_aborted() != aborted:
+                return False
+    return True
+
+
+def op_history3(o1: int, o2: int, o3: int) -> bool:
+    """
+    Every interleaving of match / imatch-step / kill / reset / is_aborted of length 3 on one object.
+    pre: 0 <= o1 <= 4 and 0 <= o2 <= 4 and 0 <= o3 <= 4
+    post: _
+    """
+    return _run_ops([o1, o2, o3])
+
+
+def op_history5_thorough(o1: int, o2: int, o3: int, o4: int, o5: int) -> bool:
+    """
+    Length 5 (thorough tier only).
+    pre: 0 <= o1 <= 4 and 0 <= o2 <= 4 and 0 <= o3 <= 4 and 0 <= o4 <= 4 and 0 <= o5 <= 4
+    post: _
+    """
+    return _run_ops([o1, o2, o3, o4, o5])
+
+
 def twin_kill(k: int) -> bool:
     """
     Reachability twin: must be refuted.
